@@ -16,6 +16,9 @@ import (
 
 func TestMain(m *testing.M) {
 	document.SetGlobalLevel(document.LogLevelSilent)
+	if p := os.Getenv(childEnv); p != "" {
+		os.Exit(childMain(p)) // a case judged alone in a fresh process (hist.go)
+	}
 	kit.TestMain(m, 1200, 8000)
 }
 
@@ -27,10 +30,19 @@ type Case struct {
 	Raw   []byte              `json:"raw,omitempty"`   // base64 in JSON
 	Via   string              `json:"via"`             // mem = OpenFromMemory, file = Open(path)
 	Note  string              `json:"note,omitempty"`
+	// Pre: main parts of well-formed packages (standard container) that are opened, in order, before the package of the case:
+	// the case is then a sequence of Opens in one process. Only Open is judged on them (it must not panic).
+	Pre  []*XMLPart `json:"pre,omitempty"`
+	Hist *Hist      `json:"hist,omitempty"` // provenance of a generated case (hist.go); not part of the input
 }
 
-func run(c Case) *kit.Result {
+// runLocal judges the case in this process.
+func runLocal(c Case) *kit.Result {
 	res := &kit.Result{}
+	if len(c.Pre) > 0 {
+		res.Label("sequence-of-opens")
+		judgePre(res, c.Pre)
+	}
 	b := c.Build()
 	via := c.Via
 	if via != "file" {
@@ -55,6 +67,10 @@ func run(c Case) *kit.Result {
 		p.Root.skeleton(&sb, 0)
 		shape = append(shape, n+"="+sb.String()+"|"+p.Prolog+"|"+strings.Join(p.Ops, "+"))
 		for _, op := range p.Ops {
+			if op == "distinct" {
+				res.Label("shape:distinct-values") // not a fault: the part stays well-formed
+				continue
+			}
 			res.Label("fault:" + op)
 			faulted = true
 		}
@@ -103,6 +119,30 @@ func run(c Case) *kit.Result {
 	if in.HasMain && in.MainClean {
 		res.Label("input:main-wellformed")
 	}
+	if in.SDT > 0 {
+		res.Label("input:sdt")
+	}
+	if in.SDTNested {
+		res.Label("input:sdt-nested")
+	}
+	if in.SDTGallery {
+		res.Label("input:sdt-gallery")
+	}
+	if in.Instr > 0 {
+		res.Label("input:field-instruction")
+	}
+	if in.InstrSplit {
+		res.Label("input:field-instruction-split")
+	}
+	if in.FldChars > 0 {
+		res.Label("input:fldChar")
+	}
+	for _, k := range []int{100, 1000, 10000, 30000} {
+		if in.Distinct >= k {
+			res.Label(fmt.Sprintf("input:distinct-attr-values>=%d", k))
+		}
+	}
+	res.Count("distinct_attr_values_offered", in.Distinct)
 	outcome := "err"
 	for _, l := range res.Labels {
 		if strings.HasPrefix(l, "open:") {
@@ -111,7 +151,12 @@ func run(c Case) *kit.Result {
 	}
 	// non-trivial: a readable zip with a main part that is not the harness's fixed standard part, of which the reader
 	// can tokenise at least one start element
-	res.Nontrivial = in.Zip && in.HasMain && in.MainStarts >= 1 && (len(c.Parts) > 0 || len(c.Cont) > 0 || len(c.Raw) > 0)
+	res.Nontrivial = in.Zip && in.HasMain && in.MainStarts >= 1 && (len(c.Parts) > 0 || len(c.Cont) > 0 || len(c.Raw) > 0 || len(c.Pre) > 0)
+	for _, p := range c.Pre {
+		var sb strings.Builder
+		p.Root.skeleton(&sb, 0)
+		shape = append(shape, "pre="+sb.String())
+	}
 	res.Shape = strings.Join(shape, ";") + ";" + outcome
 	return res
 }
@@ -161,7 +206,8 @@ func TestC06(t *testing.T) {
 	if err := xmlwf.SelfTest(); err != nil {
 		t.Fatalf("oracle self-test: %v", err)
 	}
-	MaxPartBytes = kit.Scale(4<<20, 12<<20)
+	historyPrelude() // a replayed case that fails only after the cases that preceded it (hist.go); may set kit.Tier from its stamp
+	MaxPartBytes = tierBytes(kit.Tier)
 	v := TheVocab()
 	must := map[string]float64{"open:ok": 0.30, "open:err": 0.20, "input:tables": 0.20, "via:file": 0.2, "gen:b": 0.1, "gen:c": 0.1, "save:ok": 0.25}
 	for _, op := range FaultOps {
@@ -174,6 +220,12 @@ func TestC06(t *testing.T) {
 	must["cop:forge:usize-1<<62"] = 0.005
 	must["opened-rowless-table"] = 0.02
 	must["opened-table-empty-first-row"] = 0.02
+	must["input:sdt"] = 0.15
+	must["input:sdt-gallery"] = 0.02
+	must["input:field-instruction"] = 0.15
+	must["input:field-instruction-split"] = 0.05
+	must["shape:distinct-values"] = 0.03
+	must["sequence-of-opens"] = 0.005
 	var crashers []Case
 	if kit.Tier == "thorough" && kit.Shard == 0 && os.Getenv("VERIF_REPLAY") == "" {
 		crashers = nativeFuzz(t) // generator (d); its crashers go through the verdict pipeline as fixed cases
@@ -181,21 +233,27 @@ func TestC06(t *testing.T) {
 	kit.Main(t, kit.Spec[Case]{
 		ID: "C06", Level: "exploration",
 		Rule: "a case is a package description: (a) word/document.xml as an element tree over the reader's own vocabulary (" + fmt.Sprint(len(v.Elems)) + " element names extracted from " + v.Source +
-			") with 0-3 fault operators, (b) the standard optional parts ([Content_Types].xml, _rels/.rels, document.xml.rels, styles.xml, core.xml) mutated by the same operators, (c) container-level operators; " +
+			"; string values partly composed from the string constants the reader compares values with or slices them by, extracted the same way: " + fmt.Sprint(len(v.Own)) +
+			" elements have such constants of their own) with 0-3 fault operators, content controls / fields as other producers write them (instruction split over runs, truncated, unbalanced quotes, incomplete fldChar sequences), " +
+			"attribute values that differ from slot to slot and case to case, in ~4.5% of the cases preceded by 1-3 Opens of packages with 10^4..5*10^4 distinct attribute values each (the case is then a sequence of Opens in one process), " +
+			"(b) the standard optional parts ([Content_Types].xml, _rels/.rels, document.xml.rels, styles.xml, core.xml) mutated by the same operators, (c) container-level operators; " +
 			"non-trivial = the bytes are a readable zip containing word/document.xml, the case is not the unmodified standard package, and at least one start element of the main part tokenises; " +
 			"distinct = distinct (generator, element skeleton with bucketed repetition/nesting, prolog, fault operators, container operators, open outcome)",
-		Gen: genCase, Run: run, Findings: findings, Fixed: func() []Case { return append(fixed(), crashers...) },
+		Gen: genStamped, Run: run, Findings: findings, Fixed: func() []Case { return append(fixed(), crashers...) },
 		Assumptions: []string{
 			"termination is observed through a 10 s (thorough 20 s) per-case watchdog (typical case: milliseconds) and the driver's re-run of the saved case",
 			"well-formedness of the regenerated main part is decided by the harness's own checker, not by a schema validator",
 			"the package-level clause T3.p3 is demanded only when the input's content types and package relationships were the standard ones or in the class the library replaces by defaults (absent, or not readable as XML up to the end of the root element)",
 			"per opened document the table script runs on at most 6 tables and visits at most 3000 cells per table",
 			"memory exhaustion is out of scope: generated parts are capped at 4 MB (thorough 12 MB)",
+			"every case is judged in the process that judged all earlier cases of the shard (state the reader keeps per process accumulates on purpose); at the first unattributed panic the case is judged once more alone in a fresh child process to tell an input-dependent failure from a history-dependent one, and what rapid asks for afterwards (reproduction, shrink candidates) is judged in fresh child processes",
+			"a history-dependent failure is reproduced from the provenance stamp of the saved case (seed, shard, tier, index): rapid's case sequence is a pure function of the seed, the regeneration is validated by regenerating the stamped case itself; a history re-run that cannot be completed (generator changed, 400 s budget) is reported as INCONCLUSIVE or judged alone, never as a violation",
 		},
 		MustSee:   must,
 		CaseLimit: time.Duration(kit.Scale(10, 20)) * time.Second,
 		Extra: func() map[string]interface{} {
-			return map[string]interface{}{"vocabulary_source": v.Source, "vocabulary_elements": fmt.Sprint(len(v.Elems))}
+			return map[string]interface{}{"vocabulary_source": v.Source, "vocabulary_elements": fmt.Sprint(len(v.Elems)),
+				"vocabulary_value_constants": fmt.Sprint(len(v.Global)), "cases_judged_in_child_processes": proc.children}
 		},
 	})
 }
